@@ -14,23 +14,27 @@ func DepShapes(quick bool) []APoss {
 	_ = quick
 	archLists := [][]string{nil, {"amd64"}, {"amd64", "linux-any"}, {"kfreebsd-amd64"}, {"linux-any", "kfreebsd-amd64", "any-i386"}}
 	profs := [][][]AStage{nil, {{stg(false, "p")}}, {{stg(true, "p"), stg(false, "q")}}, {{stg(false, "p")}, {stg(true, "q")}}}
-	// alphabet audit: names a change introduced into the code appear as package name, qualifier, architecture,
-	// profile name and version text
-	for _, t := range AuditStrings(auditName, 4) {
-		names = append(names, t, t+"-x")
-		quals = append(quals, t)
-		archLists = append(archLists, []string{t}, []string{"amd64", t}, []string{t + "-any"}, []string{"any-" + t})
-		profs = append(profs, [][]AStage{{stg(false, t)}}, [][]AStage{{stg(true, t), stg(false, "q")}})
+	out := PossShapes(names, quals, ops, vers, archLists, profs)
+	// alphabet audit: names / numbers a change introduced into the code appear as package name, qualifier, architecture,
+	// profile name and version text - ADDED to the product one dimension at a time (the product itself stays as it is)
+	for _, t := range AuditStrings(auditName, 6) {
+		out = append(out, PossShapes([]string{t, t + "-x"}, quals, []string{">="}, []string{"1"}, archLists[:2], profs[:2])...)
+		out = append(out, PossShapes([]string{"a"}, []string{t}, []string{">="}, []string{"1"}, archLists[:2], profs[:2])...)
+		out = append(out, PossShapes([]string{"a"}, quals[:2], []string{">="}, []string{"1"}, [][]string{{t}, {"amd64", t}, {t + "-any"}, {"any-" + t}, {"gnu-linux-" + t}}, profs[:2])...)
+		out = append(out, PossShapes([]string{"a"}, quals[:2], []string{">="}, []string{"1"}, archLists[:2], [][][]AStage{{{stg(false, t)}}, {{stg(true, t), stg(false, "q")}}})...)
 	}
+	for _, t := range AuditStrings(func(s string) bool { return Nameish(s) && hasByte(s, '-') }, 6) { // whole architecture names
+		out = append(out, PossShapes([]string{"a"}, []string{"", t}, []string{">="}, []string{"1"}, [][]string{{t}, {"amd64", t}}, profs[:1])...)
+	}
+	var av []string
 	for _, t := range AuditStrings(Versionish, 4) {
-		if !hasByte(t, '-') || true {
-			vers = append(vers, t, "1."+t)
-		}
+		av = append(av, t, "1."+t)
 	}
-	for _, t := range AuditIntStrings(0, 1<<62, 6) {
-		vers = append(vers, t)
+	av = append(av, AuditIntStrings(0, 1<<62, 6)...)
+	if len(av) > 0 {
+		out = append(out, PossShapes(names, quals[:2], ops, av, archLists[:2], profs[:2])...)
 	}
-	return PossShapes(names, quals, ops, vers, archLists, profs)
+	return out
 }
 
 // representative subset: one per feature plus a substvar
